@@ -36,6 +36,9 @@ type PowerLawDistribution struct {
 /* -------------------------------------------------------------------------- */
 
 func NewPowerLawDistribution(alpha, xmin Scalar) (*PowerLawDistribution, error) {
+  if math.IsNaN(alpha.GetFloat64()) || math.IsNaN(xmin.GetFloat64()) {
+    return nil, fmt.Errorf("invalid parameters")
+  }
   if alpha.GetFloat64() <= 1.0 {
     return nil, fmt.Errorf("invalid value for parameter alpha: %f", alpha.GetFloat64())
   }
